@@ -51,7 +51,8 @@ def run(ctx):
     total = sum(r["functions"] for r in results)
     cov = {"evaluations": total, "distinct_nontrivial": sum(r["nontrivial"] for r in results),
            "rule": "every function/method of ~80 stdlib modules without exception table, raise or generator opcodes, plus generated "
-                   "functions covering every conditional/unconditional/returning opcode; non-trivial = more than one block",
+                   "functions covering every conditional/unconditional/returning opcode and EXTENDED_ARG-prefixed jumps (bodies of 150 statements); "
+                   "per block also get_instructions(bcmap) vs the offsets of its range (model getInstructions, theorem getInstructions_spec); non-trivial = more than one block",
            "samples": [{"python": r["version"], "first_function": r["sample"], "jump_ops_seen": r["jump_ops_seen"]} for r in results],
            "interpreters": [r["version"] for r in results],
            "functions_by_interpreter": {".".join(map(str, r["version"])): r["functions"] for r in results},
